@@ -338,6 +338,11 @@ where
             if invalid(&input, &this_range) {
                 return affected_error(input);
             }
+            // The position relative to the enclosing reference changed,
+            // so the relative ranges stored in this node are stale.
+            if input.location_offset() - input.reference_pos != this.to_range().start {
+                return affected_error(input);
+            }
             // TODO: maybe dynamic affection range
             let affected_range = this_range.start..(this_range.end + 1);
             if input.token_change.overlaps(&affected_range) {
